@@ -1,12 +1,168 @@
 import GridVerif.Model.Proto
 import GridVerif.Model.Elem
+import GridVerif.Model.Cubic
+import GridVerif.Gen.CubicIndex
 
 namespace GridVerif.Driver.C13
-open GridVerif.Proto
+open GridVerif.Proto GridVerif.Cubic GridVerif.Gen.CubicIndex
 
-/-- Line-protocol handler of property C13: `C13.<op> args…` ↦ one answer line
-(`none` = malformed, answered `bad-op`). -/
+def err (e : PyErr) : String := e.tag
+
+def showPy {α} (s : α → String) : Py α → String
+  | .ok a => "ok " ++ s a
+  | .error e => err e
+
+/-- polynomial (monomial coefficients in `t = x − x₀`, lowest first) through the first
+`min n 4` nodes, by Newton's divided differences. Exact on cubics for `n ≥ 4`; for `n = 2, 3`
+it is what `CubicSpline` degenerates to (line, parabola). -/
+def newtonPoly (xs ys : List Float) : List Float :=
+  let xs := xs.take 4; let ys := ys.take 4
+  let x0 := xs.headD 0.0
+  let ts := xs.map (· - x0)
+  -- divided differences
+  let rec dd (fuel : Nat) (ts : List Float) (col : List Float) (k : Nat) (acc : List Float) : List Float :=
+    match fuel with
+    | 0 => acc
+    | fuel + 1 =>
+      match col with
+      | [] => acc
+      | c :: _ =>
+        let next := (List.range (col.length - 1)).map fun i =>
+          (col.getD (i + 1) 0.0 - col.getD i 0.0) / (ts.getD (i + k + 1) 0.0 - ts.getD i 0.0)
+        dd fuel ts next (k + 1) (acc ++ [c])
+  let coefs := dd 5 ts ys 0 []
+  -- Σ_k coefs[k] · Π_{m<k} (t − ts[m]) expanded
+  let mulLin (p : List Float) (a : Float) : List Float :=   -- p(t)·(t − a)
+    let shifted := 0.0 :: p
+    let scaled := (p.map (· * a)) ++ [0.0]
+    List.zipWith (· - ·) shifted scaled
+  let addP (p q : List Float) : List Float :=
+    (List.range (max p.length q.length)).map fun i => p.getD i 0.0 + q.getD i 0.0
+  let (res, _) := (List.range coefs.length).foldl (fun (st : List Float × List Float) k =>
+      let (acc, basis) := st
+      (addP acc (basis.map (· * coefs.getD k 0.0)), mulLin basis (ts.getD k 0.0))) ([], [1.0])
+  res
+
+def lagrange4 : Interp1 Float := fun xs ys nu x =>
+  let c := newtonPoly xs ys
+  let t := x - xs.headD 0.0
+  -- nu-th derivative of Σ c_a t^a
+  (List.range c.length).foldl (fun acc a =>
+    if a < nu then acc else
+      let fac := (List.range nu).foldl (fun f m => f * Float.ofNat (a - m)) 1.0
+      acc + c.getD a 0.0 * fac * Float.pow t (Float.ofNat (a - nu))) 0.0
+
+def pScheme (s : String) : Option (Option Scheme) :=
+  match Scheme.ofString s with
+  | some x => some (some x)
+  | none => if s.startsWith "Bad" then some none else none
+
+def natsOfInts (l : List Int) : Option (List Nat) :=
+  l.mapM fun i => if i < 0 then none else some i.toNat
+
 def handle : List String → Option String
+  | "C13.i2c" :: nd :: rest => do
+    let nd ← pInt nd
+    let (shape, tl) ← pVec pInt rest
+    match tl with
+    | [idx] =>
+      let idx ← pInt idx
+      pure (showPy sInts (indexToCoordinates nd shape idx))
+    | _ => none
+  | "C13.c2i" :: nd :: rest => do
+    let nd ← pInt nd
+    let (shape, tl) ← pVec pInt rest
+    let (ind, tl) ← pVec pInt tl
+    if tl ≠ [] then none else
+    -- two different contents of the uninitialised array must give the same answer
+    let a := coordinatesToIndex nd shape 0 ind
+    let b := coordinatesToIndex nd shape 123456789 ind
+    if showPy toString a != showPy toString b then pure "junk-dependent" else
+    pure (showPy toString a)
+  | "C13.ugrid" :: sch :: rest => do
+    let sch ← pScheme sch
+    let (origin, tl) ← pVec pFloat rest
+    let (axes, tl) ← pMat pFloat tl
+    let (shape, tl) ← pVec pInt tl
+    if tl ≠ [] then none else
+    pure (showPy (fun (r : List (List Float) × List Float) => sMat sFloat r.1 ++ " " ++ sFloats r.2)
+      (uniformGrid origin axes shape sch))
+  | "C13.tensor" :: rest => do
+    let (d, tl) ← pVec pNat rest      -- sizes of the 1-D grids
+    let rec take (ds : List Nat) (tl : List String) (accP accW : List (List Float)) :
+        Option (List (List Float) × List (List Float) × List String) :=
+      match ds with
+      | [] => some (accP.reverse, accW.reverse, tl)
+      | _ :: ds => do
+        let (p, tl) ← pVec pFloat tl
+        let (w, tl) ← pVec pFloat tl
+        take ds tl (p :: accP) (w :: accW)
+    let (ps, ws, tl) ← take d tl [] []
+    if tl ≠ [] then none else
+    pure (showPy (fun (w : List Float) => sMat sFloat (tensorPoints ps) ++ " " ++ sFloats w) (tensorWeights ws))
+  | "C13.from_molecule" :: rot :: rest => do
+    let (nums, tl) ← pVec pFloat rest
+    let (coords, tl) ← pMat pFloat tl
+    match tl with
+    | sp :: ex :: tl =>
+      let sp ← pFloat sp
+      let ex ← pFloat ex
+      let v ← (match rot, tl with
+        | "0", [] => some none
+        | "1", tl => (pMat pFloat tl).bind fun (m, tl) => if tl = [] then some (some m) else none
+        | _, _ => none)
+      pure (showPy (fun (r : List Float × List (List Float) × List Int) =>
+          sFloats r.1 ++ " " ++ sMat sFloat r.2.1 ++ " " ++ sInts r.2.2)
+        (fromMolecule nums coords sp ex v))
+    | _ => none
+  | "C13.closest" :: which :: rest => do
+    let w : Option Which := match which with
+      | "closest" => some .closest | "origin" => some .origin | _ => none
+    let (origin, tl) ← pVec pFloat rest
+    let (axes, tl) ← pMat pFloat tl
+    let (shape, tl) ← pVec pNat tl
+    let (pt, tl) ← pVec pFloat tl
+    if tl ≠ [] then none else
+    pure (showPy toString (closestPoint origin axes shape pt w))
+  | "C13.interp" :: lg :: rest => do
+    let (shape, tl) ← pVec pNat rest
+    let (pts, tl) ← pMat pFloat tl
+    let (vals, tl) ← pVec pFloat tl
+    match tl with
+    | [a, b, c, x, y, z] =>
+      let nu := ((← pNat a), (← pNat b), (← pNat c))
+      let p := ((← pFloat x), (← pFloat y), (← pFloat z))
+      -- CubicSpline raises for fewer than two nodes
+      if shape.any (· < 5) then pure "value-error" else
+      match lg with
+      | "0" => pure (showPy sFloat (interpCubic lagrange4 shape pts vals nu p))
+      | "1" => pure (showPy sFloat (interpLog lagrange4 shape pts vals nu p))
+      | _ => none
+    | _ => none
+  | "C13.axes_points" :: rest => do
+    let (shape, tl) ← pVec pNat rest
+    let (pts, tl) ← pMat pFloat tl
+    if tl ≠ [] then none else
+    pure (showPy (fun (r : List Float × List Float × List Float) =>
+      sFloats r.1 ++ " " ++ sFloats r.2.1 ++ " " ++ sFloats r.2.2) (pointsAlongAxes shape pts))
+  | "C13.interp_support" :: rest => do
+    -- flat indices of the function values the cubic method reads (operator := sum of its values)
+    let (shape, tl) ← pVec pNat rest
+    if tl ≠ [] then none else
+    let n := numPoints shape
+    let pts : List (List Float) := List.replicate n [0.0, 0.0, 0.0]
+    let sumOp : Interp1 Float := fun _ vals _ _ => vals.foldl (· + ·) 0.0
+    let hits := (List.range n).filter fun m =>
+      match interpCubic sumOp shape pts ((List.range n).map fun i => if i = m then 1.0 else 0.0)
+          (0, 0, 0) (0.0, 0.0, 0.0) with
+      | .ok v => v != 0.0
+      | .error _ => false
+    pure ("ok " ++ sNats hits)
+  | "C13.bell" :: n :: rest => do
+    let n ← pNat n
+    let (g, tl) ← pVec pFloat rest
+    if tl ≠ [] then none else
+    pure ("ok " ++ sFloat (completeBell (fun i => g.getD (i - 1) 0.0) n))
   | _ => none
 
 end GridVerif.Driver.C13
